@@ -17,6 +17,8 @@ func main() {
 		os.Exit(runDriveCore(os.Args[2:]))
 	case "drive-cli": // drive-cli <prop> <seed> <first> <count> <out.ndjson>
 		os.Exit(runDriveCLI(os.Args[2:]))
+	case "cli-faults": // cli-faults <table-export> <seed> <rounds> <result-json>
+		os.Exit(runCLIFaults(os.Args[2:]))
 	case "cli-worker":
 		os.Exit(runCLIWorker(os.Args[2:]))
 	case "cli": // cli <prop> <export-file> <result-json>
